@@ -150,7 +150,7 @@ cases = st.fixed_dictionaries({"trans": st.one_of(_lazy(_shipped), _lazy(_shippe
                                "num": S.num_kind})
 cov_cases = st.fixed_dictionaries({"trans": st.one_of(_lazy(_shipped_with_sd), _random(True), _random(True), _lazy(_shipped), _random(False)),
                                    "X": TR.point(5e7),
-                                   "vcv": TR.psd3(), "dtype": st.sampled_from(["float64", "float64", "float64", "int64", "float32"])})
+                                   "vcv": TR.psd3_as_held(), "dtype": st.sampled_from(["float64", "float64", "float64", "int64", "float32"])})
 
 
 def enumerate_shipped(tier, seed, shard, nshards):
